@@ -37,6 +37,18 @@ func runRaceStress(seed int64, goroutines, callsEach int) {
 	}
 	genFail := strings.Replace(many.String(), "ex.p79:", "undeclared.p79:", 1)
 	parseFail := strings.Replace(many.String(), "  v79:\n    targetClass: ex.T\n", "  v79:\n", 1)
+	// a big ACCEPTED profile too: its generation takes long enough to overlap with the other goroutines' compilations, and its
+	// report depends on every one of the many names the generator invents
+	var big strings.Builder
+	big.WriteString("profile: big\nprefixes:\n  ex: " + NS + "\nviolation:\n")
+	for k := 0; k < 40; k++ {
+		fmt.Fprintf(&big, "  - b%d\n", k)
+	}
+	big.WriteString("validations:\n")
+	for k := 0; k < 40; k++ {
+		fmt.Fprintf(&big, "  b%d:\n    targetClass: ex.T\n    message: m\n    propertyConstraints:\n      ex.p%d / ex.p%d:\n        minCount: %d\n      ex.p%d:\n        in: [a, b, \"%d\"]\n", k, k%4, (k/4)%4, 1+k%2, (k+1)%4, k%3)
+	}
+	jobs = append(jobs, job{big.String(), jobs[1].data})
 	jobs = append(jobs, job{genFail, jobs[0].data}, job{parseFail, jobs[0].data})
 	serial := make([]string, len(jobs))
 	for i, j := range jobs {
